@@ -5,6 +5,21 @@ ROOT = os.path.dirname(os.path.dirname(os.path.abspath(__file__)))
 
 # id -> (technique, level text, level note, design ref)
 CLAIMED = {
+ "C03": ("proptest over the reader input mix × tolerance × buffered set × capacity; oracle = reference header parser + reference payload decoders at the reported offsets (validity predicate + tiling invariant)",
+         "60 000 (quick) / 2 M (thorough) inputs (valid, non-canonical, mutated, random, adversarial, mid-document) are read under random configurations; for every successful item up to the first error the id at the reported offset, the decoded value, the tiling of consecutive tags (inside Full items too) and the offsets of End/Full items are checked against the input bytes with an independent header parser and decoders.",
+         "trusted: ref_header / ref_decode; a 0x00 byte read as raw id 0 under InvalidTagIds tolerance is accepted as its own class", "4.3"),
+ "C04": ("exhaustive enumeration of all read partitions of small inputs × capacities + proptest random schedules / EOF pauses; metamorphic oracle (equality with the slice parse)",
+         "Every composition of the input length into read sizes (2^(len-1) schedules) for 45 (quick) / 150 (thorough) small valid / truncated / corrupted documents × 12 capacities incl. 0, plus random schedules, capacities 0..64 and temporary Ok(0) at tag boundaries on the full reader mix; the whole observation sequence incl. the first error's fields must equal the slice parse.",
+         "metamorphic against the implementation itself (the property is that equality); C03/C06/C12 anchor the slice parse", "4.4"),
+ "C05": ("proptest over (bytes, configuration, next/try_recover call script, scripted source with short reads and one injected io::Error); oracle = totality invariants with a call-count bound",
+         "80 000 (quick) / 3 M (thorough) generated histories; every call under catch_unwind, item bound 4·len+64, call cap 8× that, fused after None, try_recover error kinds and monotonicity, provenance of read errors. A libFuzzer target with the same oracle extends the thorough tier.",
+         "trusted: the scripted source; consistency of DynSpec/RichSpec; declared sizes that would allocate > 64 MiB are read under a 1 MiB limit", "4.5"),
+ "C06": ("proptest over mutated / mid-document / mixed known-unknown documents and a dedicated template; oracle = StructureChecker (own stack, ref_match, byte extents from the reference header parser)",
+         "60 000 (quick) / 2 M (thorough) strict-mode parses are replayed by an independent checker that keeps its own open-master stack: nesting, ids in spec, declared-path match, containment in every known-size range, End of known-size masters neither early nor late, everything closed with End at the end.",
+         "trusted: ref_header, ref_match; where an unknown-size master ends is left to C07", "4.6"),
+ "C08": ("proptest inputs × exhaustive enumeration of all buffered-id subsets (<= 6 masters); metamorphic oracle (unrolled buffered parse == unbuffered parse, prefix + error otherwise)",
+         "For 6 000 (quick) / 200 000 (thorough) inputs every subset of the spec's master ids (all 2^m - 1 for m <= 6, 12 sampled otherwise) is used as buffered set; the unrolled result must equal the unbuffered parse item by item incl. offsets outside Full items, or be a prefix followed by an error when the unbuffered parse fails.",
+         "metamorphic against the unbuffered parse (anchored by C03/C06/C12)", "4.8"),
  "C01": ("proptest over choice tapes decoded into (specification, conformant forest, per-tag presentation); oracle = generator-side expected sequence (round trip)",
          "40 000 (quick) / 1.5 M (thorough) generated documents under generated specifications and the macro-derived RichSpec are written through TagWriter with every presentation (default, width 1-8, unknown size, Full, raw tags) and read back by the strict iterator; the expected item sequence is the generator's own flattening of the tree, so a symmetric writer+reader bug still shows whenever it changes a value or the structure. Sampling, not exhaustive: depth <= 7, <= 60 elements, payload <= 16 385 bytes (2 MiB in a thorough sub-stage).",
          "trusted: generator-side flatten(), DynSpec consistency; ambiguous shapes (global element right after an unknown-size master, unknown size on masters with placeholder paths) are excluded by construction and counted", "4.1"),
